@@ -41,7 +41,7 @@ def run(R):
     quick = R.tier == 'quick'
     ns = [1, 2] if quick else [1, 2, 3]
     abits = 20 if quick else 31
-    pct = 150 if quick else 900
+    pct = 150 if quick else 1200
     nmax = max(ns)
     R.bounds = {'users': ns, 'running/ready mcpu': f'0..2^{abits}-1', 'free mcpu': f'-2^{abits}..2^{abits}-1',
                 'rounding slack': 'N/2 on totals, 1 on levels'}
